@@ -248,6 +248,20 @@ func (fs *fakeFS) sideEffects() string {
 	return b.String()
 }
 
+// ioCounters renders what I/O served from this leaf changes (not the opens
+// and closes); allCounters adds those.
+func (l *fakeLeaf) ioCounters() string {
+	l.fs.mu.Lock()
+	defer l.fs.mu.Unlock()
+	return fmt.Sprintf("%s[r=%d w=%d s=%d t=%d size=%d]", l.id, l.reads, l.writes, l.setattrs, l.truncates, l.size)
+}
+
+func (l *fakeLeaf) allCounters() string {
+	l.fs.mu.Lock()
+	defer l.fs.mu.Unlock()
+	return fmt.Sprintf("%s[o=%v c=%v r=%d w=%d s=%d t=%d size=%d]", l.id, l.opens, l.closes, l.reads, l.writes, l.setattrs, l.truncates, l.size)
+}
+
 func (fs *fakeFS) balanced() (bool, string) {
 	fs.mu.Lock()
 	defer fs.mu.Unlock()
